@@ -4,6 +4,9 @@ import (
 	"encoding/json"
 	"fmt"
 	"io"
+	"os"
+	"os/exec"
+	"reflect"
 	"runtime"
 	"sort"
 	"strings"
@@ -46,12 +49,26 @@ func (c14r) Meta() kit.Meta {
 }
 
 func (c14r) Phases() []kit.Phase {
-	return []kit.Phase{{Name: "threads", Count: func(tier string) uint64 {
-		if tier == "thorough" {
-			return 6000
-		}
-		return 240
-	}}}
+	return []kit.Phase{
+		{Name: "threads", Count: func(tier string) uint64 {
+			if tier == "thorough" {
+				return 6000
+			}
+			return 200
+		}},
+		// the same workload, each in a process of its own: lazily initialised package-level state (a cache filled on first
+		// use, a table built on first call) races only the first time it is touched in a process
+		{Name: "fresh-process", Count: func(tier string) uint64 {
+			if tier == "thorough" {
+				return 1200
+			}
+			return 48
+		}, Tape: func(base, i uint64) *kit.Tape {
+			t := kit.NewTape(kit.RunSeed(base, "C14R/fresh", i))
+			t.Fixed = []byte(`{"fresh":true}`)
+			return t
+		}},
+	}
 }
 
 var c14rRuns int64
@@ -75,6 +92,10 @@ type c14rScenario struct {
 }
 
 func (c14r) Exec(r *kit.Run) {
+	if r.Tape.Fixed != nil && os.Getenv("SIM_C14R_CHILD") == "" {
+		c14rInChild(r)
+		return
+	}
 	g := r.Tape.Lane("gen")
 	sc := &c14rScenario{Goroutines: []int{2, 4, 8}[g.Choose(3)], Names: 6, Rounds: 3}
 	sc.Prefix = fmt.Sprintf("r%x_%d_", r.Tape.Seed&0xfffffff, atomic.AddInt64(&c14rRuns, 1)) // names never interned before in this process
@@ -95,7 +116,16 @@ func (c14r) Exec(r *kit.Run) {
 	r.Out.ScenarioKey = string(b)
 
 	var clock int64
-	barrier := make([]int64, sc.Names)
+	barrier := make([]int64, sc.Names+16)
+	runNo := atomic.LoadInt64(&c14rRuns)
+	// a struct type nobody has scanned into before (per run), shared by all goroutines of the run
+	freshType := reflect.StructOf([]reflect.StructField{{Name: "X", Type: reflect.TypeOf(0)}, {Name: fmt.Sprintf("Unused%d", runNo), Type: reflect.TypeOf("")}})
+	wait := func(k int) {
+		atomic.AddInt64(&barrier[k], 1)
+		for atomic.LoadInt64(&barrier[k]) < int64(sc.Goroutines) {
+			runtime.Gosched()
+		}
+	}
 	start := make(chan struct{})
 	var wg sync.WaitGroup
 	type result struct {
@@ -175,6 +205,70 @@ func (c14r) Exec(r *kit.Run) {
 						out.evidence = append(out.evidence, fmt.Sprintf("goroutine %d: number_chars gave %v %v", gi, w.X, err))
 					}
 				}
+			}
+			// phase 3: every goroutine touches the same part of the API at the same instant (a barrier before each step)
+			bad := func(what string, got interface{}, err error) {
+				out.evidence = append(out.evidence, fmt.Sprintf("goroutine %d: %s gave %v (err %v)", gi, what, got, err))
+			}
+			fsys := kit.NewSimFS(nil, nil)
+			fsys.Files["lib.pl"] = []byte(fmt.Sprintf("who(g%d).\n", gi))
+			p.FS = fsys
+			steps := []func(){
+				func() {
+					if err := p.Exec("greeting --> [hello], name.\nname --> [world].\nname --> [prolog].\n"); err != nil {
+						bad("loading a grammar", nil, err)
+					}
+				},
+				func() {
+					if err := p.QuerySolution("phrase(greeting, [hello, world]), \\+ phrase(greeting, [hello, there]).").Err(); err != nil {
+						bad("phrase/2", nil, err)
+					}
+				},
+				func() {
+					dest := reflect.New(freshType)
+					if err := p.QuerySolution("X is 6 * 7.").Scan(dest.Interface()); err != nil || dest.Elem().Field(0).Int() != 42 {
+						bad("Scan into a struct", dest.Elem().Field(0).Int(), err)
+					}
+				},
+				func() {
+					m := map[string]interface{}{}
+					if err := p.QuerySolution("X = [a, 1, f].").Scan(m); err != nil || fmt.Sprint(m["X"]) != "[a 1 f]" {
+						bad("Scan into a map", m["X"], err)
+					}
+				},
+				func() {
+					var w struct{ X string }
+					if err := p.QuerySolution("consult(lib), who(X).").Scan(&w); err != nil || w.X != fmt.Sprintf("g%d", gi) {
+						bad("consult(lib), who(X)", w.X, err)
+					}
+				},
+				func() {
+					var w struct{ X prolog.TermString }
+					if err := p.QuerySolution("op(700, xfx, ===), X = '==='(a, b).").Scan(&w); err != nil || w.X != "a===b" {
+						bad("op/3 and writing with it", w.X, err)
+					}
+				},
+				func() {
+					var w struct{ X []int }
+					if err := p.QuerySolution("set_prolog_flag(double_quotes, codes), atom_codes(ab, X).").Scan(&w); err != nil || fmt.Sprint(w.X) != "[97 98]" {
+						bad("atom_codes/2", w.X, err)
+					}
+				},
+				func() {
+					var w struct{ L []string }
+					if err := p.QuerySolution("findall(S, sub_atom(abc, _, 2, _, S), L0), sort(L0, L).").Scan(&w); err != nil || fmt.Sprint(w.L) != "[ab bc]" {
+						bad("sub_atom/5", w.L, err)
+					}
+				},
+				func() {
+					if err := p.QuerySolution("catch(throw(ball), B, true), B == ball, catch(atom_length(1, _), error(type_error(_, _), _), true).").Err(); err != nil {
+						bad("catch/3", nil, err)
+					}
+				},
+			}
+			for si, step := range steps {
+				wait(sc.Names + si)
+				step()
 			}
 		}(gi)
 	}
@@ -306,4 +400,72 @@ func c14rLinearizable(hist []c14rOp) porcupine.CheckResult {
 		ops = append(ops, porcupine.Operation{ClientId: h.Client, Input: h, Call: h.Call, Output: h.Atom, Return: h.Ret})
 	}
 	return porcupine.CheckOperationsTimeout(model, ops, 10*time.Second)
+}
+
+// c14rInChild runs this very workload in a process of its own (the replay role of the same binary) and turns what the
+// child reports - a violation, a race report, a fatal runtime error - into this run's outcome.
+func c14rInChild(r *kit.Run) {
+	g := r.Tape.Lane("gen")
+	_ = g
+	dir, err := os.MkdirTemp("", "verif-c14r-")
+	if err != nil {
+		kit.Bug("c14r: %v", err)
+	}
+	defer os.RemoveAll(dir)
+	rf := &kit.ReplayFile{Property: "C14R", Class: "child", Signature: "child", RunSeed: r.Tape.Seed, Tier: r.Tier, Lanes: map[string][]uint32{}, Fixed: r.Tape.Fixed}
+	// the child draws the same choices: give it a generating tape by seed (no recorded lanes yet)
+	file := dir + "/workload.json"
+	if err := os.WriteFile(file, rf.JSON(), 0o644); err != nil {
+		kit.Bug("c14r: %v", err)
+	}
+	cmd := exec.Command(os.Args[0], "-test.run", "^TestSim$", "-test.timeout", "0", "-test.cpu", "8")
+	cmd.Env = append(os.Environ(), "SIM_ROLE=replay", "SIM_FILE="+file, "SIM_C14R_CHILD=1", "SIM_REPLAY_GENERATE=1")
+	ob, _ := cmd.CombinedOutput()
+	out := string(ob)
+	r.Out.Scenario = map[string]interface{}{"fresh_process": true, "seed": r.Tape.Seed}
+	r.Out.ScenarioKey = fmt.Sprintf("fresh|%d", r.Tape.Seed)
+	r.Out.NonTrivial = true
+	r.Steps(1)
+	excerpt := func(at int) string {
+		e := out[at:]
+		if len(e) > 5000 {
+			e = e[:5000]
+		}
+		return e
+	}
+	switch {
+	case strings.Contains(out, "WARNING: DATA RACE"):
+		rep := excerpt(strings.Index(out, "WARNING: DATA RACE"))
+		r.Out.Scenario = map[string]interface{}{"fresh_process": true, "seed": r.Tape.Seed, "race_report": strings.Split(rep, "\n")}
+		r.Fail("race", "race", "data race reported by the race detector in a fresh process: %s", c14rFrames(rep))
+	case strings.Contains(out, "fatal error:"):
+		rep := excerpt(strings.Index(out, "fatal error:"))
+		r.Fail("fatal-runtime-error", "fatal-runtime-error", "the process died: %s", strings.SplitN(rep, "\n", 2)[0])
+	case strings.Contains(out, "REPLAY-RESULT class="):
+		line := out[strings.Index(out, "REPLAY-RESULT class="):]
+		line = strings.SplitN(line, "\n", 2)[0]
+		var class, sig string
+		fmt.Sscanf(line, "REPLAY-RESULT class=%s signature=%s", &class, &sig)
+		msg := ""
+		if i := strings.Index(out, "REPLAY-MESSAGE "); i >= 0 {
+			msg = strings.SplitN(out[i+15:], "\n", 2)[0]
+		}
+		r.Fail(class, sig, "in a fresh process: %s", msg)
+	case !strings.Contains(out, "REPLAY-RESULT none"):
+		kit.Bug("c14r child gave no result:\n%s", out)
+	}
+}
+
+func c14rFrames(report string) string {
+	var out []string
+	for _, l := range strings.Split(report, "\n") {
+		t := strings.TrimSpace(l)
+		if strings.HasPrefix(t, "Write at") || strings.HasPrefix(t, "Read at") || strings.HasPrefix(t, "Previous write at") || strings.HasPrefix(t, "Previous read at") || strings.HasPrefix(t, "github.com/ichiban/prolog") {
+			out = append(out, t)
+		}
+		if len(out) >= 6 {
+			break
+		}
+	}
+	return strings.Join(out, " | ")
 }
